@@ -24,7 +24,7 @@ impl FunctionMarkupPass {
         func: &Rc<Function>,
     ) -> Result<MarkData, Box<CfgError>> {
         let mut defs = RegisterSet::new(); // Registers this function writes to
-        let mut returns = None; // Return instructions in this function
+        let mut found_returns = vec![]; // Return instructions in this function
         let mut instructions = vec![];
 
         // Traverse the CFG for all nodes reachable from the entry point
@@ -40,36 +40,52 @@ impl FunctionMarkupPass {
 
             // Collect return instructions
             if node.is_return() {
-                // Set the newly found return to be an jump to the previously
-                // found return.
-                if let Some(ref prev_ret) = returns {
-                    let found_ret = Rc::clone(&node);
+                found_returns.push(Rc::clone(&node));
+            }
+        }
 
-                    // Fix the prevs & nexts of both returns
-                    found_ret.clear_nexts();
-                    found_ret.insert_next(Rc::clone(prev_ret));
-                    prev_ret.insert_prev(Rc::clone(&found_ret));
+        // A return that is already the exit of another (overlapping) function
+        // must stay a return: turning it into a jump would corrupt that function.
+        let is_exit_of_other_function = |node: &Rc<CfgNode>| {
+            cfg.functions()
+                .values()
+                .any(|other| !Rc::ptr_eq(other, func) && Rc::ptr_eq(&other.exit(), node))
+        };
 
-                    // Convert the found return into a jump
-                    let info = Token::new(
-                        TokenType::Symbol("return".to_string()),
-                        found_ret.raw_text(),
-                        found_ret.range(),
-                        found_ret.file(),
-                    );
+        // Pick the exit: prefer the exit of an overlapping function, otherwise
+        // the first return in source order (the traversal order is not stable).
+        let position = |node: &Rc<CfgNode>| cfg.nodes().iter().position(|n| Rc::ptr_eq(n, node));
+        found_returns.sort_by_key(|node| (!is_exit_of_other_function(node), position(node)));
+        let mut found_returns = found_returns.into_iter();
+        let returns = found_returns.next();
 
-                    let inst = With::new(JumpLinkType::Jal, info.clone());
-                    let rd = With::new(Register::X0, info.clone());
-                    let name = With::new(LabelString::new("__return__"), info.clone());
-                    let new_node =
-                        ParserNode::new_jump_link(inst, rd, name, prev_ret.node().token().clone());
-                    #[allow(unused_must_use)]
-                    found_ret.set_node(new_node);
+        if let Some(ref exit) = returns {
+            // Set every other return to be a jump to the exit
+            for found_ret in found_returns {
+                if is_exit_of_other_function(&found_ret) {
+                    continue;
                 }
-                // If this is the first return node, save it
-                else {
-                    returns = Some(Rc::clone(&node));
-                }
+
+                // Fix the prevs & nexts of both returns
+                found_ret.clear_nexts();
+                found_ret.insert_next(Rc::clone(exit));
+                exit.insert_prev(Rc::clone(&found_ret));
+
+                // Convert the found return into a jump
+                let info = Token::new(
+                    TokenType::Symbol("return".to_string()),
+                    found_ret.raw_text(),
+                    found_ret.range(),
+                    found_ret.file(),
+                );
+
+                let inst = With::new(JumpLinkType::Jal, info.clone());
+                let rd = With::new(Register::X0, info.clone());
+                let name = With::new(LabelString::new("__return__"), info.clone());
+                let new_node =
+                    ParserNode::new_jump_link(inst, rd, name, found_ret.node().token().clone());
+                #[allow(unused_must_use)]
+                found_ret.set_node(new_node);
             }
         }
 
